@@ -323,6 +323,22 @@ func (sc *c21Scenario) walk(ctx context.Context, s *site, size int, st *c21Stats
 	return "", "", pages
 }
 
+// sortKeys orders entity keys by the listing's sort key in the requested direction.
+func sortKeys(l *listing, keys []string, o paginate.Order) []string {
+	srt := append([]string(nil), keys...)
+	sort.SliceStable(srt, func(i, j int) bool {
+		a, b := l.sortKey(srt[i]), l.sortKey(srt[j])
+		if a == b {
+			return srt[i] < srt[j]
+		}
+		if o == paginate.OrderAsc {
+			return l.less(a, b)
+		}
+		return l.less(b, a)
+	})
+	return srt
+}
+
 func pageKeys(pages []*pageInfo) [][]string {
 	out := make([][]string, len(pages))
 	for i, p := range pages {
@@ -356,19 +372,7 @@ func runC21() int {
 				for fi, f := range fs {
 					keys := l.expected(selectRows(rows, f, l.res.atom), v)
 					for _, o := range []paginate.Order{paginate.OrderAsc, paginate.OrderDesc} {
-						o := o
-						srt := append([]string(nil), keys...)
-						sort.SliceStable(srt, func(i, j int) bool {
-							a, b := l.sortKey(srt[i]), l.sortKey(srt[j])
-							if a == b {
-								return srt[i] < srt[j]
-							}
-							if o == paginate.OrderAsc {
-								return l.less(a, b)
-							}
-							return l.less(b, a)
-						})
-						scs = append(scs, &c21Scenario{l: l, hi: hi, v: v, f: f, fi: fi, order: o, sorted: srt})
+						scs = append(scs, &c21Scenario{l: l, hi: hi, v: v, f: f, fi: fi, order: o, sorted: sortKeys(l, keys, o)})
 					}
 				}
 			}
